@@ -401,6 +401,14 @@ def replay_public(case):
                                      "transformation matrices (max relative deviation %.3g, shape %s vs %s)" % (name, types, dev, typed.shape, want.shape))
         else:
             res["dev"] = max(res["dev"], dev)
+        if case["id"] % 3 == 0:      # a transformation close to (but not) the identity is still a transformation
+            Un = np.eye(n) * (1 + 2.0 ** -18) + 2.0 ** -28 * (np.arange(n * n).reshape(n, n) % 7 - 3)
+            ln = f(shells, Un)
+            wn = apply_all(Un, typed, nb)
+            dn = float(np.abs(ln - wn).max() / (np.abs(wn).max() + 1e-300)) if ln.shape == wn.shape else float("inf")
+            if not dn <= 1e-9:
+                res["violations"].append("%s(transform = identity + 4e-6): differs from the untransformed array with the matrix applied to "
+                                         "every basis index (max relative deviation %.3g)" % (name, dn))
         lin = f(shells, U)
         wantl = apply_all(U, typed, nb)
         scl = np.abs(wantl).max() + 1e-300
